@@ -35,10 +35,27 @@ impl MioListener {
     }
 
     pub(crate) fn accept(&self) -> io::Result<MioStream> {
+        #[cfg(actix_net_verif)]
+        if let Some(err) = crate::verif::take_injected(self.verif_raw_fd()) {
+            return Err(err);
+        }
+
         match *self {
             MioListener::Tcp(ref lst) => lst.accept().map(|(stream, _)| MioStream::Tcp(stream)),
             #[cfg(unix)]
             MioListener::Uds(ref lst) => lst.accept().map(|(stream, _)| MioStream::Uds(stream)),
+        }
+    }
+}
+
+#[cfg(actix_net_verif)]
+impl MioListener {
+    pub(crate) fn verif_raw_fd(&self) -> std::os::unix::io::RawFd {
+        use std::os::unix::io::AsRawFd as _;
+
+        match *self {
+            MioListener::Tcp(ref lst) => lst.as_raw_fd(),
+            MioListener::Uds(ref lst) => lst.as_raw_fd(),
         }
     }
 }
